@@ -210,3 +210,14 @@ impl Zu384 {
         (Zu256([ c0, c1, c2, c3 ]), Zu128([ d0, d1 ]))
     }
 }
+
+// ========================================================================
+// Verification hooks (read-only accessors to private items); compiled only
+// with --cfg pornin_crrl_verif.
+
+#[cfg(pornin_crrl_verif)]
+impl Zu128 { pub fn verif_limbs(&self) -> [u64; 2] { self.0 } }
+#[cfg(pornin_crrl_verif)]
+impl Zu256 { pub fn verif_limbs(&self) -> [u64; 4] { self.0 } }
+#[cfg(pornin_crrl_verif)]
+impl Zu384 { pub fn verif_limbs(&self) -> [u64; 6] { self.0 } }
